@@ -5,6 +5,7 @@ package tiref
 
 import (
 	"fmt"
+	"math"
 	"strconv"
 	"strings"
 )
@@ -56,7 +57,14 @@ func (m *machine) fault(f string, a ...any) {
 	}
 }
 
-func (m *machine) push(v Val) { m.stack = append(m.stack, v) }
+func (m *machine) push(v Val) {
+	// terminfo(5) does not fix the width of the machine's integers (ncurses uses a C int):
+	// a program whose values leave the 32-bit range has no defined output
+	if !v.IsStr && (v.N > math.MaxInt32 || v.N < math.MinInt32) {
+		m.fault("value %d outside the 32-bit range at offset %d", v.N, m.pos)
+	}
+	m.stack = append(m.stack, v)
+}
 func (m *machine) pushBool(b bool) {
 	if b {
 		m.push(Int(1))
